@@ -311,7 +311,14 @@ theorem evalP_name_ok {s : String} (h : Ordinary s) : evalP (.name s.toList) = .
     unfold Ordinary vName at h
     simp only [h0, if_true] at h
     cases h
-  · simp only [h0]; rw [h]; rfl
+  · by_cases h1 : globalTypes.contains (s.toList.map Char.toNat) = true
+    · exfalso
+      unfold Ordinary vName at h
+      simp only [h0, h1, if_true] at h
+      by_cases h2 : globalFns.contains (s.toList.map Char.toNat) = true
+      · simp only [h2, if_true] at h; cases h
+      · simp only [h2] at h; cases h
+    · simp only [h0, h1]; rw [h]; rfl
 
 theorem evalP_item_sem (it : Item) (h : ItemOK it) : Sem (evalP (itemSyn it)) (evalItem it) := by
   cases it with
@@ -631,5 +638,34 @@ def answersMono (r : Except PErr Val) : Bool :=
   match r with
   | .ok (.mono _) => true
   | _ => false
+
+end Unyt.C20M
+
+namespace Unyt.C20M
+open Unyt Parse Print UExpr
+
+theorem numPowInt_neg_one {c r : Rat} (hc : c ≠ 0) (h : numPowInt c (-1) = .ok r) : r = 1 / c := by
+  unfold numPowInt at h
+  have hn : ¬ ((-1 : Int) = 0) := by decide
+  simp only [hn, hc, if_false] at h
+  by_cases h1 : c = 1
+  · simp only [h1, if_true] at h; cases h; rw [h1]; decide +kernel
+  · simp only [h1, if_false] at h
+    by_cases h2 : c = -1
+    · have hm : ¬ ((-1 : Int) % 2 = 0) := by decide
+      simp only [h2, if_true, hm, if_false] at h; cases h; rw [h2]; decide +kernel
+    · simp only [h2, if_false] at h
+      split at h
+      · cases h
+      · split at h
+        · cases h
+        · unfold guardRat at h
+          split at h
+          · cases h
+            have hneg : ¬ ((-1 : Int) ≥ 0) := by decide
+            simp only [ratPowInt, hneg, if_false]
+            show (1 : Rat) / ratPowNat c 1 = 1 / c
+            simp only [ratPowNat, Rat.one_mul]
+          · cases h
 
 end Unyt.C20M
